@@ -85,10 +85,10 @@ fn matching_paren(b: &[u8], open: usize) -> Option<usize> {
     None
 }
 
-/// Every comparison group `( … ==|!=|<:|<=|>:|>= … )` → `$unsigned(( … ))`: a comparison result is
+/// Every comparison group `( … ==|!=|<:|<=|>:|>= … )` → `{( … )}` (one-element concatenation): a comparison result is
 /// 1-bit unsigned in IEEE 1800 (11.8.1), so this is an identity in SystemVerilog.
 pub fn wrap_comparisons_unsigned(text: &str) -> String {
-    wrap_groups(text, &[" <: ", " <= ", " >: ", " >= ", " == ", " != "], "$unsigned(")
+    wrap_groups(text, &[" <: ", " <= ", " >: ", " >= ", " == ", " != "], "{", "}")
 }
 
 /// The condition group of every if-expression `(if (C) ? …` → `(if $signed((C)) ? …`: only the truth
@@ -119,7 +119,7 @@ pub fn wrap_ternary_conditions_signed(text: &str) -> String {
     out
 }
 
-fn wrap_groups(text: &str, ops: &[&str], prefix: &str) -> String {
+fn wrap_groups(text: &str, ops: &[&str], prefix: &str, suffix: &str) -> String {
     let b = text.as_bytes();
     let mut stack: Vec<(usize, bool)> = vec![];
     let mut groups: Vec<(usize, usize)> = vec![];
@@ -158,7 +158,7 @@ fn wrap_groups(text: &str, ops: &[&str], prefix: &str) -> String {
         }
         out.push(c);
         if close_at.binary_search(&k).is_ok() {
-            out.push(')');
+            out.push_str(suffix);
         }
     }
     out
@@ -316,12 +316,97 @@ pub fn unroll_break_loops(text: &str) -> String {
     out
 }
 
+/// Relational groups only (`<: <= >: >=`) → `{( … )}` (identity in SystemVerilog, 11.8.1).
+pub fn wrap_relational_unsigned(text: &str) -> String {
+    wrap_groups(text, &[" <: ", " <= ", " >: ", " >= "], "{", "}")
+}
+
+/// Every bit/part select used as an operand → `{select}` (one-element concatenation): a select is unsigned whatever the
+/// variable's signedness (IEEE 1800-2017 11.8.1), so this is an identity in SystemVerilog.  Element
+/// reads of unpacked arrays keep the element's signedness and are left alone.
+pub fn wrap_selects_unsigned(text: &str) -> String {
+    let mut arrays: Vec<String> = vec![];
+    for l in text.lines() {
+        let t = l.trim();
+        if let Some(rest) = t.strip_prefix("var ")
+            && t.ends_with("];")
+            && let Some((name, _)) = rest.split_once(':')
+        {
+            arrays.push(name.trim().to_string());
+        }
+    }
+    let mut out = String::with_capacity(text.len() + 64);
+    for l in text.lines() {
+        let b = l.as_bytes();
+        let mut i = 0;
+        let mut line = String::with_capacity(l.len() + 16);
+        while i < b.len() {
+            let c = b[i] as char;
+            let prev_ident = i > 0 && ((b[i - 1] as char).is_ascii_alphanumeric() || b[i - 1] == b'_' || b[i - 1] == b'$' || b[i - 1] == b'\'' || b[i - 1] == b':');
+            if (c.is_ascii_alphabetic() || c == '_') && !prev_ident {
+                let mut j = i;
+                while j < b.len() && ((b[j] as char).is_ascii_alphanumeric() || b[j] == b'_') {
+                    j += 1;
+                }
+                let name = &l[i..j];
+                if j < b.len() && b[j] == b'[' {
+                    // consecutive bracket groups
+                    let mut groups = 0;
+                    let mut k = j;
+                    while k < b.len() && b[k] == b'[' {
+                        match matching_paren(b, k) {
+                            Some(e) => {
+                                groups += 1;
+                                k = e + 1;
+                            }
+                            None => break,
+                        }
+                    }
+                    let before = l[..i].trim();
+                    let after = l[k..].trim_start();
+                    let assign_op = ["= ", "+= ", "-= ", "&= ", "|= ", "^= ", "<<= ", ">>= ", "*= ", "/= ", "%= "].iter().any(|o| after.starts_with(o));
+                    let is_lhs = (before.is_empty() || before == "assign") && assign_op;
+                    let is_array = arrays.iter().any(|a| a == name);
+                    let wrap = !is_lhs && groups >= if is_array { 2 } else { 1 };
+                    if wrap {
+                        // a one-element concatenation: unsigned, same width, operand self-determined
+                        let after_case = before.ends_with("case");
+                        line.push_str(if after_case { "({" } else { "{" });
+                        line.push_str(&l[i..k]);
+                        line.push_str(if after_case { "})" } else { "}" });
+                    } else {
+                        line.push_str(&l[i..k]);
+                    }
+                    i = k;
+                    continue;
+                }
+                line.push_str(name);
+                i = j;
+                continue;
+            }
+            line.push(c);
+            i += 1;
+        }
+        out.push_str(&line);
+        out.push('\n');
+    }
+    out
+}
+
+/// Defect classes attributed by running svref with a defect-emulation switch (`svref::sim::set_emulation`):
+/// if svref WITH the emulated defect agrees with the Veryl simulator on the whole trace, the mismatch is that defect.
+pub fn emulations() -> Vec<(&'static str, u8)> {
+    vec![("widening-size-cast-operand-not-extended-by-sign", 2)]
+}
+
 pub fn classes() -> Vec<Class> {
     vec![
         Class { name: "sign-function-overrides-inner-operator-signedness", rewrite: wrap_sign_function_argument },
         Class { name: "function-argument-expression-not-extended-to-formal", rewrite: cast_function_arguments },
         Class { name: "stale-dynamic-read-of-assign-driven-array", rewrite: static_array_read },
         Class { name: "for-break-in-always_ff-keeps-last-iteration-only", rewrite: unroll_break_loops },
+        Class { name: "c17-R8", rewrite: wrap_selects_unsigned },
+        Class { name: "c17-R10", rewrite: wrap_relational_unsigned },
         Class { name: "expression-type-signedness-cloned-from-first-operand", rewrite: wrap_comparisons_unsigned },
         Class { name: "expression-type-signedness-cloned-from-first-operand", rewrite: wrap_ternary_conditions_signed },
     ]
@@ -331,13 +416,20 @@ pub fn classes() -> Vec<Class> {
 mod tests {
     #[test]
     fn others() {
-        assert_eq!(super::wrap_comparisons_unsigned("x = ((a <: b) + (c));"), "x = ($unsigned((a <: b)) + (c));");
+        assert_eq!(super::wrap_comparisons_unsigned("x = ((a <: b) + (c));"), "x = ({(a <: b)} + (c));");
         assert_eq!(super::wrap_ternary_conditions_signed("x = (if (a != 0) ? b : c);"), "x = (if $signed((a != 0)) ? b : c);");
         assert_eq!(super::static_array_read("    assign c3 = a3[i2 % 3];\n"), "    assign c3 = (if ((i2 % 3) == 0) ? a3[0] : (if ((i2 % 3) == 1) ? a3[1] : a3[2]));\n");
         let f = "    function fn0 (\n        a0: input logic<3>,\n        a1: input signed logic<18>,\n    ) -> logic<19> {\n    }\n    assign o = Pkg::fn0((0), (i0 <<< c4));\n";
         assert!(super::cast_function_arguments(f).contains("Pkg::fn0((((0)) as 3), (((i0 <<< c4)) as 18))"));
         let l = "        for k2 in 0..5 {\n            r1[k2] = ~r1[k2];\n            if k2 == 2 {\n                break;\n            }\n        }\n";
         assert_eq!(super::unroll_break_loops(l), "        for k2 in 0..3 {\n            r1[k2] = ~r1[k2];\n        }\n");
+    }
+
+    #[test]
+    fn selects() {
+        let t = "    var a0: signed logic<15> [2];\n    assign c0 = a0[i0 % 2];\n        c1 = (c0 % (c0[2+:13] | 1)) + a0[1][3:0] + Pkg::C0 + 8'h1f;\n        c5[4:1] = r0[3];\n    assign c2[k] = ^(i0 >> k);\n            r2[0:0] >: r2: {\n";
+        let w = "    var a0: signed logic<15> [2];\n    assign c0 = a0[i0 % 2];\n        c1 = (c0 % ({c0[2+:13]} | 1)) + {a0[1][3:0]} + Pkg::C0 + 8'h1f;\n        c5[4:1] = {r0[3]};\n    assign c2[k] = ^(i0 >> k);\n            {r2[0:0]} >: r2: {\n";
+        assert_eq!(super::wrap_selects_unsigned(t), w);
     }
 
     #[test]
